@@ -8,6 +8,8 @@ from . import c16
 
 
 def page_reader(ctx):
+    """The function that scans the registry from a caller-supplied cursor: a PAIRS.range whose lower bound derives from one
+    of the function's parameters (the whole-registry walk passes a literal None)."""
     P = ctx.P
     readers = []
     for f in P.prod_fns():
@@ -16,7 +18,11 @@ def page_reader(ctx):
         for b, p, fr_, t in P.calls(f):
             if p and re.search(r"Map::range(_raw)?$", generic_path(p)):
                 v = P.val_call(f, f.body, b)
-                if "|".join(sorted(ctx.roots(v[4][0]))) == ctx.N.PAIRS and "None" not in "|".join(sorted(ctx.roots(v[4][2]))):
+                if "|".join(sorted(ctx.roots(v[4][0]))) != ctx.N.PAIRS:
+                    continue
+                lo = common.inline_helpers(P, v[4][2])
+                from_param = any(x[0] == "param" and x[1] == f.path for x in common.walk(lo))
+                if from_param:
                     readers.append((f, b, v))
     return readers
 
@@ -52,7 +58,7 @@ def run(ctx):
         if inner[0] == "agg" and str(inner[2]).endswith("Result::Ok"):
             inner = inner[3][0][1]
         ads_, source_, helpers_ = c17.collection_chain(ctx, inner)
-        if source_[0] == "scan" and not helpers_:
+        if source_[0] == "scan":
             chain = (ads_, "range", source_[1])
     if chain is None:
         r1.fail("C19.R1:shape", f.path, f.span, "page reader does not return a collected iterator chain: unrecognised-idiom")
@@ -113,7 +119,12 @@ def run(ctx):
         elif ctor.endswith("Bound::InclusiveRaw") or ctor.endswith("Bound::Inclusive"):
             kind_b = "inclusive"
         cursor_v = lo[4][0]
-    if kind_b is None:
+    bound_in_helper = False
+    if kind_b is None and lo[0] == "call" and isinstance(lo[3], str) and roles.is_workspace_fn(P, lo[3]):
+        # the helper builds the Option<Bound> itself: `match cursor { Some(a) => Some(Bound::ExclusiveRaw(key(a) ++ suffix)), None => None }`
+        cursor_v = lo
+        bound_in_helper = True
+    elif kind_b is None:
         r3.fail("C19.R3:bound-kind", f.path, common.span_of_block_term(f, rb), "start bound is not `cursor.map(Bound::ExclusiveRaw | InclusiveRaw)`: unrecognised-idiom (%s)" % ctx.show(lo, 3))
 
     # ---- R2 cursor ---------------------------------------------------------------------------------------------
@@ -156,6 +167,13 @@ def run(ctx):
                 arg_want = base_param
                 ctxfn = helper or f
                 clo = ctxfn
+        if bound_in_helper and val is not None:
+            if val[0] == "agg" and re.search(r"Bound::(ExclusiveRaw|Exclusive|InclusiveRaw|Inclusive)$", str(val[2])) and len(val[3]) == 1:
+                kind_b = "exclusive" if "Exclusive" in str(val[2]) else "inclusive"
+                val = val[3][0][1]
+            else:
+                r3.fail("C19.R3:bound-kind", f.path, common.span_of_block_term(f, rb), "start bound is not an Exclusive / Inclusive raw bound built from the cursor: unrecognised-idiom (%s)" % ctx.show(val, 3))
+                val = None
         if val is None:
             r2.fail("C19.R2:shape", f.path, f.span, "cursor is not computed as start_after.map(|assets| ...) / match start_after { Some(a) => Some(..), None => None }: unrecognised-idiom")
         else:
@@ -187,6 +205,11 @@ def run(ctx):
     if kind_b and suffix is not None:
         if kind_b == "inclusive" and not suffix:
             r3.fail("C19.R3:inclusive-empty", f.path, common.span_of_block_term(f, rb), "inclusive start bound at the cursor key itself: the last pair of a page is returned again on the next page")
+        elif suffix and suffix[0] > 1:
+            # the next page starts after K ++ suffix: every registered key K ++ b.. with b <= suffix[0] is skipped.  Only the
+            # bytes 0x00 / 0x01 are known not to continue an identifier (printable denoms, equal-length canonical addresses)
+            r3.fail("C19.R3:suffix-skips", f.path, common.span_of_block_term(f, rb),
+                    "the cursor is the last key followed by byte 0x%02x: a pair whose key extends the cursor's key with a byte <= 0x%02x (e.g. denom `x/1` then `x/10`) is skipped by the next page" % (suffix[0], suffix[0]))
         else:
             r3.site("%s start bound with suffix %s" % (kind_b, suffix))
     elif kind_b and r2.status == "pass":
